@@ -104,6 +104,7 @@ type Fn struct {
 	P      []Param  `json:"p,omitempty"`
 	R      []Result `json:"r,omitempty"`
 	Err    bool     `json:"err,omitempty"`    // has an error result
+	ErrT   string   `json:"errt,omitempty"`   // "iface": the error result is declared as an interface type that embeds error
 	ErrAt  int      `json:"errat,omitempty"`  // 0: error is the last result; k>0: error sits before result k-1 (clipped)
 	Var    string   `json:"var,omitempty"`    // variadic element type
 	Faults []int    `json:"faults,omitempty"` // per execution; beyond the list: ok
@@ -384,7 +385,11 @@ func (f *Fn) Short() string {
 		rs = append(rs, r.Short())
 	}
 	if f.Err && f.errPos() >= len(f.R) {
-		rs = append(rs, "error")
+		if f.ErrT != "" {
+			rs = append(rs, "error("+f.ErrT+")")
+		} else {
+			rs = append(rs, "error")
+		}
 	}
 	s := fmt.Sprintf("f%d(%s)(%s)", f.ID, strings.Join(ps, ","), strings.Join(rs, ","))
 	if len(f.Faults) > 0 {
